@@ -150,7 +150,19 @@ func (p *proxyConn) handleMITM(req *http.Request) error {
 	// Successful CONNECT response does not invoke trace.
 	p.traceWroteResponse(res, nil)
 
+	// The client is expected to start the TLS handshake now,
+	// do not wait for its first byte longer than the handshake timeout.
+	if p.MITMTLSHandshakeTimeout > 0 {
+		if deadlineErr := p.conn.SetReadDeadline(time.Now().Add(p.MITMTLSHandshakeTimeout)); deadlineErr != nil {
+			log.Error(ctx, "can't set read deadline", "error", deadlineErr)
+		}
+	}
 	b, err := p.brw.Peek(1)
+	if p.MITMTLSHandshakeTimeout > 0 {
+		if deadlineErr := p.conn.SetReadDeadline(time.Time{}); deadlineErr != nil {
+			log.Error(ctx, "can't clear read deadline", "error", deadlineErr)
+		}
+	}
 	if err != nil {
 		if isClosedConnError(err) {
 			log.Debug(ctx, "mitm: connection closed prematurely", "error", err)
